@@ -68,6 +68,7 @@ func runC05(c *core.Ctx) {
 		ruleEscape(c, "C05.udf.escape", "udf", "Server")
 	}
 	c05TypeGuard(c)
+	c05Reflect(c)
 }
 
 // ---------------------------------------------------------------- recover placement
@@ -967,6 +968,146 @@ func c05TypeGuard(c *core.Ctx) {
 	if good {
 		c.Ok("C05.typeguard", "tick/stateful")
 	}
+}
+
+// c05Reflect: a reflect.Value read from a table without the comma-ok form is the zero Value when the key is absent, and every
+// method on it panics. Such a read is allowed only in a function all of whose callers first establish the key's presence in
+// that same table.
+func c05Reflect(c *core.Ctx) {
+	c.Rule("C05.reflect", "A9: in package tick a reflect.Value taken from a map with a single-value read and then used (Interface/Set/Call/…) lives in a function whose every call site in the package is dominated by a presence test of the same key in the same map field (a comma-ok read, directly or through a helper): the zero Value panics in reflect, and tick.Evaluate re-panics what it does not know")
+	pkg := c.P.Pkg("tick")
+	if pkg == nil {
+		c.Undecided("C05.reflect", "anchor:tick", token.NoPos, "package not loaded")
+		return
+	}
+	info := pkg.TypesInfo
+	isValueMap := func(x ast.Expr) (string, bool) {
+		tv, ok := info.Types[x]
+		if !ok {
+			return "", false
+		}
+		m, ok := tv.Type.Underlying().(*types.Map)
+		if !ok || !core.TypeIs(m.Elem(), "reflect", "Value") {
+			return "", false
+		}
+		if sel, ok := ast.Unparen(x).(*ast.SelectorExpr); ok {
+			return sel.Sel.Name, true
+		}
+		return types.ExprString(x), true
+	}
+	// helpers that test presence: functions with a comma-ok read of a Value map field → that field
+	tests := map[*types.Func]string{}
+	for _, f := range core.AllFuncs(pkg) {
+		if f.Decl.Body == nil {
+			continue
+		}
+		ast.Inspect(f.Decl.Body, func(n ast.Node) bool {
+			if as, ok := n.(*ast.AssignStmt); ok && len(as.Lhs) == 2 && len(as.Rhs) == 1 {
+				if ix, ok := as.Rhs[0].(*ast.IndexExpr); ok {
+					if field, ok := isValueMap(ix.X); ok {
+						if _, dup := tests[f.Obj]; !dup || field == "properties" {
+							tests[f.Obj] = field
+						}
+					}
+				}
+			}
+			return true
+		})
+	}
+	nSites := 0
+	for _, f := range core.AllFuncs(pkg) {
+		if f.Decl.Body == nil {
+			continue
+		}
+		// single-value reads whose result is used as a receiver
+		var fields []string
+		ast.Inspect(f.Decl.Body, func(n ast.Node) bool {
+			as, ok := n.(*ast.AssignStmt)
+			if !ok || len(as.Lhs) != 1 || len(as.Rhs) != 1 {
+				return true
+			}
+			ix, ok := as.Rhs[0].(*ast.IndexExpr)
+			if !ok {
+				return true
+			}
+			field, ok := isValueMap(ix.X)
+			if !ok {
+				return true
+			}
+			id, ok := as.Lhs[0].(*ast.Ident)
+			if !ok {
+				return true
+			}
+			obj := info.Defs[id]
+			if obj == nil {
+				obj = info.Uses[id]
+			}
+			used := false
+			ast.Inspect(f.Decl.Body, func(m ast.Node) bool {
+				if call, ok := m.(*ast.CallExpr); ok {
+					if sel, ok := call.Fun.(*ast.SelectorExpr); ok {
+						if rid, ok := sel.X.(*ast.Ident); ok && info.Uses[rid] == obj {
+							used = true
+						}
+					}
+				}
+				return true
+			})
+			if used {
+				fields = append(fields, field)
+			}
+			return true
+		})
+		for _, field := range fields {
+			nSites++
+			// every call site of f in the package
+			good, nCalls := true, 0
+			for _, g := range core.AllFuncs(pkg) {
+				if g.Decl.Body == nil {
+					continue
+				}
+				ast.Inspect(g.Decl.Body, func(n ast.Node) bool {
+					call, ok := n.(*ast.CallExpr)
+					if !ok {
+						return true
+					}
+					callee := core.Callee(info, call)
+					if callee == nil || callee.Name() != f.Obj.Name() {
+						return true
+					}
+					// the concrete method or the interface method it implements
+					if callee != f.Obj {
+						if sig, ok := callee.Type().(*types.Signature); !ok || sig.Recv() == nil {
+							return true
+						} else if _, isIface := sig.Recv().Type().Underlying().(*types.Interface); !isIface {
+							return true
+						}
+					}
+					nCalls++
+					tested := false
+					ast.Inspect(g.Decl.Body, func(m ast.Node) bool {
+						if pc, ok := m.(*ast.CallExpr); ok && pc.Pos() < call.Pos() {
+							if h := core.Callee(info, pc); h != nil && tests[h] == field {
+								tested = true
+							}
+						}
+						return true
+					})
+					if !tested {
+						good = false
+						c.Fail("C05.reflect", f.Name()+"@"+g.Name(), call.Pos(), "%s reads %s[…] without a presence test and uses the reflect.Value; this call site does not establish beforehand that the key is in %s (HasProperty also answers for property methods, which are in another table): a script that names a property method without calling it (`stream|from().groupBy`) makes reflect panic, and the panic escapes tick.Evaluate", f.Name(), field, field)
+					}
+					return true
+				})
+			}
+			if good && nCalls > 0 {
+				c.Ok("C05.reflect", f.Name()+"#"+field)
+			} else if nCalls == 0 {
+				c.Note("C05.reflect: %s has no call site inside package tick", f.Name())
+			}
+		}
+	}
+	c.Floor("C05.reflect", "unchecked reflect.Value table reads that are used", nSites, 1)
 }
 
 func c05AgentIO(c *core.Ctx, pkg *packages.Package) {
